@@ -1164,6 +1164,8 @@ def run(repo, rep, tier):
                             'for-loops over finite collections are expected)')
 
     _r2_shapes(repo, rep, ops, conn)
+    object_model_handlers_catch_both(repo, rep, 'C02.R14')
+    parsed_values_are_strings_where_used_as(repo, rep)
     _r4b_type_guard(repo, rep)
     _r2c_tag_confusion(repo, rep)
     r7 = rep.rule('C02.R7', 'error messages on the reply path can be built '
@@ -1784,6 +1786,167 @@ def unbounded_int_text_rule(repo, rep):
     if not n:
         raise AnalysisError('C02.R11: no int(text, 16) in the response '
                             'parser (anchor moved)')
+
+
+STR_ONLY_METHODS = ('lower', 'upper', 'casefold', 'strip', 'lstrip',
+                    'rstrip', 'startswith', 'endswith', 'split', 'rsplit',
+                    'splitlines', 'encode', 'replace', 'title', 'isdigit',
+                    'partition', 'rpartition', 'zfill', 'find')
+
+
+def parsed_values_are_strings_where_used_as(repo, rep, rid='C02.R13'):
+    """C02.R13: a value the parser got from a child element (one_child(),
+    optional_child(), parse_any(), a parse_<element>() method) can be any
+    object of the model - a string for VALUE, a list for VALUE.ARRAY, a
+    path for VALUE.REFERENCE / INSTANCENAME / CLASSNAME ...  Using it as
+    text (`child.lower()`) is only sound under `isinstance(child, str)`;
+    without that test a DTD-valid reply whose element is of another kind
+    raises AttributeError out of the operation instead of a
+    CIMXMLParseError."""
+    from ..cfg import GuardWalker
+    r = rep.rule(rid, 'parsed child values are used as text only under an '
+                 'isinstance(..., str) test')
+    tp = repo.module(TP)
+    n = 0
+    for f in tp.all_funcs():
+        parsed = set()
+        for a in walk_no_nested(f.node):
+            if isinstance(a, ast.Assign) and isinstance(a.value, ast.Call):
+                d = dotted(a.value.func) or ''
+                if d in ('self.one_child', 'self.optional_child',
+                         'self.parse_any') or d.startswith('self.parse_'):
+                    for t in a.targets:
+                        if isinstance(t, ast.Name):
+                            parsed.add(t.id)
+        if not parsed:
+            continue
+        fx = None
+        for st_, c in ((st_, c) for st_ in walk_no_nested(f.node)
+                       if isinstance(st_, ast.stmt) and not isinstance(
+                           st_, (ast.For, ast.While, ast.Try, ast.With,
+                                 ast.FunctionDef, ast.AsyncFunctionDef,
+                                 ast.ClassDef))
+                       for c in ast.walk(st_.test if isinstance(
+                           st_, ast.If) else st_)):
+            var = None
+            if isinstance(c, ast.Call) and \
+                    isinstance(c.func, ast.Attribute) and \
+                    c.func.attr in STR_ONLY_METHODS and \
+                    isinstance(c.func.value, ast.Name) and \
+                    c.func.value.id in parsed:
+                var = c.func.value.id
+            elif isinstance(c, ast.Call):
+                # handed to a private helper that uses its parameter as text
+                from ..paths import _helper_of, _bind_args
+                h = _helper_of(f, c)
+                b = _bind_args(h, c) if h is not None else None
+                for pn, a in (b or {}).items():
+                    if isinstance(a, ast.Name) and a.id in parsed and any(
+                            isinstance(x, ast.Call) and
+                            isinstance(x.func, ast.Attribute) and
+                            x.func.attr in STR_ONLY_METHODS and
+                            isinstance(x.func.value, ast.Name) and
+                            x.func.value.id == pn
+                            for x in walk_no_nested(h.node)):
+                        var = a.id
+            if var is None:
+                continue
+            n += 1
+            r.sites += 1
+            r.functions.add(f.fq)
+            if fx is None:
+                fx = stmt_facts(f.node)
+            known = list(fx.get(st_, ((), ()))[0]) + list(
+                expr_guards(st_, c))
+            atoms = [a_ for t0, p0 in known
+                     for a_ in GuardWalker._atoms(t0, p0)]
+            ok = any(pol and isinstance(t, ast.Call) and
+                     dotted(t.func) == 'isinstance' and len(t.args) == 2
+                     and norm(t.args[0]) == var and
+                     norm(t.args[1]) in ('str', '(str,)')
+                     for t, pol in atoms)
+            r.ob(ok, '%s|%s' % (f.qualname, norm(c, 50)))
+            if not ok:
+                rep.finding(r, f.qualname, norm(c, 60), 'AttributeError', TP,
+                            c.lineno,
+                            '%s is the parsed value of a child element (it '
+                            'may be a list, a path, an object ...) and is '
+                            'used as text without an isinstance(%s, str) '
+                            'test: a reply / request with another element '
+                            'kind there raises AttributeError instead of a '
+                            'CIMXMLParseError' % (var, var))
+    # (the number of such uses may legitimately be zero; the scan itself is
+    # kept honest by the functions it went through)
+    nf = sum(1 for _f in tp.all_funcs())
+    r.sites += 1
+    r.ob(nf > 60, 'functions-scanned', {'functions': nf})
+    if nf < 60:
+        raise AnalysisError('%s: only %d parser functions scanned'
+                            % (rid, nf))
+
+
+def object_model_handlers_catch_both(repo, rep, rid):
+    """In the CIM-XML parser every `try` that constructs an object of the
+    CIM object model (CIMInstanceName, CIMProperty, CIMQualifier, ...) and
+    converts the failure to CIMXMLParseError catches TypeError *and*
+    ValueError: the constructors raise either, depending on what is wrong
+    with the data (a key value of the wrong type -> TypeError, a NULL key
+    value -> ValueError).  A handler that names only one of them lets the
+    other escape from the parser: the client operation raises ValueError
+    instead of a pywbem.Error, the listener drops the connection without a
+    response.  (9 sites on the reference tree, all catching both.)"""
+    r = rep.rule(rid, 'parser try blocks around object-model constructors '
+                 'catch TypeError and ValueError')
+    m = repo.module(TP)
+    obj_classes = {c for c in repo.module(OBJ).classes if c.startswith('CIM')}
+    n = 0
+    for f in m.all_funcs():
+        for t in walk_no_nested(f.node):
+            if not isinstance(t, ast.Try):
+                continue
+            ctors = sorted({dotted(x.func) for b in t.body
+                            for x in ast.walk(b) if isinstance(x, ast.Call)
+                            and dotted(x.func) in obj_classes})
+            if not ctors:
+                continue
+            conv = [h for h in t.handlers if any(
+                isinstance(x, ast.Call) and
+                dotted(x.func) == 'CIMXMLParseError'
+                for b in h.body for x in ast.walk(b))]
+            if not conv:
+                continue
+            n += 1
+            r.sites += 1
+            r.functions.add(f.fq)
+            caught = set()
+            for h in t.handlers:
+                if h.type is None:
+                    caught |= {'TypeError', 'ValueError'}
+                    continue
+                els = h.type.elts if isinstance(h.type, ast.Tuple) \
+                    else [h.type]
+                for e in els:
+                    nm = norm(e).split('.')[-1]
+                    caught.add(nm)
+                    if nm in ('Exception', 'BaseException'):
+                        caught |= {'TypeError', 'ValueError'}
+            missing = sorted({'TypeError', 'ValueError'} - caught)
+            r.ob(not missing, '%s|%s' % (f.qualname, '/'.join(ctors)),
+                 {'constructs': ctors, 'catches': sorted(caught)})
+            if missing:
+                rep.finding(r, f.qualname, '%s(...)' % ctors[0],
+                            'handler-misses-' + missing[0], TP, t.lineno,
+                            'the try around %s(...) converts %s to '
+                            'CIMXMLParseError but not %s, which the '
+                            'constructor raises for other invalid data '
+                            '(e.g. a NULL key value): it escapes from the '
+                            'parser instead of a parse error'
+                            % (ctors[0], '/'.join(sorted(
+                                caught & {'TypeError', 'ValueError'})) or
+                               'nothing', missing[0]))
+    if n < 7:
+        raise AnalysisError('%s: only %d wrapped object-model constructions '
+                            'found in the parser' % (rid, n))
 
 
 def _always_str(repo, func, name, depth=0):
